@@ -294,16 +294,18 @@ def handle (op : String) (args : List String) : Except String String :=
   -- byte-level tar stream of deb / ipk (GNU format, no extension headers): model writer and reader
   | "tarfile" => do
     let ms ← run1 (pList (do
+      let fl ← tok
+      let flavor ← (match fl with | "g" => pure Tar.Flavor.gnu | "u" => pure Tar.Flavor.ustar | t => throw s!"bad tar flavor {t}")
       let name ← pBytes; let mode ← pNat; let uid ← pNat; let gid ← pNat; let size ← pNat; let mtime ← pNat
       let tf ← pNat; let linkname ← pBytes; let uname ← pBytes; let gname ← pBytes; let body ← pBytes
-      pure ({ hdr := { name, mode, uid, gid, size, mtime, typeflag := tf.toUInt8, linkname, uname, gname }, body } : Tar.Member))) args
+      pure ({ hdr := { flavor, name, mode, uid, gid, size, mtime, typeflag := tf.toUInt8, linkname, uname, gname }, body } : Tar.Member))) args
     pure (hex (Tar.archive ms))
   | "tarread" => do
     let b ← run1 pBytes args
     match Tar.read b with
     | none => pure "malformed"
     | some ms => pure (s!"{ms.length}" ++ String.join (ms.map (fun m =>
-        s!" {hex m.hdr.name} {m.hdr.mode} {m.hdr.uid} {m.hdr.gid} {m.hdr.size} {m.hdr.mtime} {m.hdr.typeflag.toNat} {hex m.hdr.linkname} {hex m.hdr.uname} {hex m.hdr.gname} {m.body.length}")))
+        s!" {match m.hdr.flavor with | .gnu => "g" | .ustar => "u"} {hex m.hdr.name} {m.hdr.mode} {m.hdr.uid} {m.hdr.gid} {m.hdr.size} {m.hdr.mtime} {m.hdr.typeflag.toNat} {hex m.hdr.linkname} {hex m.hdr.uname} {hex m.hdr.gname} {m.body.length}")))
   -- byte-level cpio payload of rpm: model writer and reader
   | "cpiofile" => do
     let es ← run1 (pList (do
